@@ -205,9 +205,13 @@ Fixpoint av1_legacy_seq (buffer : option (list Z)) (ps : list tok) : list value 
 
 Definition dispatch_codecs (op : Z) (args : list tok) : value :=
   match op, args with
-  | 1101, [enable; TInt pid0; TList calls] =>
+  | 1101, [enable; TInt warm; TList calls] =>
+    (* warm unrecorded calls Payload(10, [1]) on a fresh payloader, then the history *)
     match t_bool enable with
-    | Some en => VList (vp8_history (mkVp8Pay en pid0) calls)
+    | Some en =>
+      let st0 := Z.iter warm (fun st => match vp8_payload st 10 (Some [1]) with Ok (st', _) => st' | _ => st end)
+                        (mkVp8Pay en 0) in
+      VList (vp8_history st0 calls)
     | None => VBad
     end
   | 1102, [TList ps] => VList (vp8_unmarshal_seq vp8_fresh ps)
